@@ -51,6 +51,43 @@ Theorem update_thetas_realises_values :
       /\ concat sems = map snd new.
 Proof. exact update_thetas_values_lemma. Qed.
 
+(* update_thetas for ANY edit of the theta list in one step - changed, removed and added thetas, several
+   records: when the plan the driver derives from lcs.diff / reorder_diff is inside guard_plan (every
+   record surgery - evaluated on the tree after the removal - is inside the guard of theta_update_readback,
+   every created parameter is representable, and the values the plan hands out in emission order are the
+   new list: g_order, the conjunct Refuted.theta_refuted_insert_order shows to be needed), update_thetas
+   succeeds, produces one record per action, and the regenerated records together mean exactly the new
+   parameter list. *)
+Theorem update_thetas_realises :
+  forall (V : Type) (F : fops V), fops_ok F ->
+  forall (recs : list node) (old new : list (nparam V)),
+    guard_plan V F recs old new = true ->
+    exists acts roots sems,
+      ut_plan V F recs old new = Ok acts
+      /\ update_thetas V F recs old new = Ok roots
+      /\ length roots = length acts
+      /\ mapM (fun ar => out_sem V F (fst ar) (snd ar)) (combine acts roots) = Ok sems
+      /\ concat sems = map snd new.
+Proof. exact update_thetas_realises_lemma. Qed.
+
+(* update_random_variables / update_random_variable_records for one record type ($OMEGA or $SIGMA), at
+   record-planning level (ModelRv.v; the plan is tied call by call to the real loop, Check tag 26): for all
+   old and new lists of distributions, whenever every record the loop looks at holds ONE distribution (BLOCK
+   records and records with a single diagonal item - g_aligned, evaluated on the script of lcs.diff), the
+   loop does not fail, never shrinks a record, and plans exactly one rewritten (OmegaRecord.update with that
+   distribution's parameters, lower triangle row by row) or created (create_omega_single / create_omega_block)
+   record per distribution of the in-memory model, in the model's order: names and block structure of what
+   is written follow the new random variables.  (Records with several diagonal items: tie only; they are
+   where the open findings C04-OMEGA-DIAG-ITEM-ORDER / C04-OMEGA-XN-REMOVE live.) *)
+Theorem rv_plan_realises :
+  forall (old_all_keys : list nat) (old_names new_names : list text) (lens : list nat) (old new : list pdist),
+    g_aligned old_all_keys (inter_texts old_names new_names) lens (diff pdist_eqb old new) 0 = true ->
+    exists plan,
+      rv_plan old_all_keys old_names new_names lens old new = Ok plan
+      /\ flat_map paction_dist plan = new
+      /\ forallb plain_action plan = true.
+Proof. exact rv_plan_realises_lemma. Qed.
+
 (* "Values that were not changed keep their original spelling", for one plain theta: the init token is
    untouched whenever its value is the new value; a bound that stays is written with format_number's
    text - so it keeps its spelling exactly when it was spelled that way (Refuted.theta_refuted_respell
